@@ -27,8 +27,12 @@ for meta in sorted(glob.glob(os.path.join(VERIF, "seeded", "*", "meta.json"))):
 for b in sorted(glob.glob(os.path.join(VERIF, "benign", "*", "patch.diff"))):
     entries.append({"prop": prop, "patch": b, "benign": os.path.basename(os.path.dirname(b))})
 
-results = []
-for e in entries:
+from concurrent.futures import ThreadPoolExecutor
+WORKERS = int(os.environ.get("SELFTEST_WORKERS", "5"))
+
+
+def run_one(e):
+    results = []
     tmp = tempfile.mkdtemp(prefix="dtnlint_selftest_")
     try:
         work = os.path.join(tmp, "repo")
@@ -38,7 +42,7 @@ for e in entries:
             diff = subprocess.run(["git", "-C", REPO, "show", "--format=", e["commit"]], capture_output=True, text=True)
             if diff.returncode != 0:
                 results.append({"mutant": name, "expect": e["expect"], "status": "skipped", "why": "commit not found"})
-                continue
+                return results
             ap = subprocess.run(["patch", "-R", "-p1", "-s", "-f", "-F0", "-d", work], input=diff.stdout, capture_output=True, text=True)
         elif "benign" in e:
             name = "benign:" + e["benign"]
@@ -48,22 +52,27 @@ for e in entries:
             name = "seeded:" + e["seed"]
             if e.get("stale"):
                 results.append({"mutant": name, "expect": e["expect"], "status": "skipped", "why": e["stale"]})
-                continue
+                return results
             ap = subprocess.run(["patch", "-p1", "-s", "-f", "-F0", "-d", work], input=open(e["patch"]).read(), capture_output=True, text=True)
         if ap.returncode != 0:
             results.append({"mutant": name, "expect": e["expect"], "status": "skipped", "why": "patch does not apply to the current tree"})
-            continue
+            return results
         b = subprocess.run(["go", "build", "./..."], cwd=work, env=env, capture_output=True, text=True)
         if b.returncode != 0:
             results.append({"mutant": name, "expect": e["expect"], "status": "skipped", "why": "mutant does not compile on the current tree"})
-            continue
+            return results
         out = subprocess.run([os.path.join(VERIF, "bin", "dtnlint"), "-prop", prop, "-repo", work, "-no-evidence"], env=env, capture_output=True, text=True)
         if "benign" in e:
             alarms = [l for l in out.stdout.splitlines() if l.startswith("violated")]
             results.append({"mutant": name, "expect": e["expect"], "status": "quiet" if out.returncode != 1 and not alarms else "FALSE-ALARM", "checker_exit": out.returncode, "alarms": alarms[:3]})
-            continue
+            return results
         hit = any(l.startswith("violated") and e["expect"] in l for l in out.stdout.splitlines())
         results.append({"mutant": name, "expect": e["expect"], "status": "killed" if hit else "MISSED", "checker_exit": out.returncode})
     finally:
         shutil.rmtree(tmp, ignore_errors=True)
+    return results
+
+
+with ThreadPoolExecutor(max_workers=WORKERS) as ex:
+    results = [r for rs in ex.map(run_one, entries) for r in rs]
 json.dump({"property": prop, "mutants": results}, sys.stdout, indent=1)
